@@ -56,6 +56,10 @@ func propC07(c c07Case, o *hx.Obs) *hx.Failure {
 	lim := hx.LimSpec{Mode: "depth", Depth: c.Depth, Nodes: c.Nodes, StopAfterMs: -1, PonderHitAfterMs: -1}
 	out := hx.RunSearch(s, d, ep, &root, lim, 60*time.Second)
 	ctx := fmt.Sprintf("search depth %d nodes %d on %s settings {%s}", c.Depth, c.Nodes, root.FEN(), c.Settings.String())
+	if out.Slow {
+		o.Label("slow-search-stopped-by-harness(inconclusive)")
+		return nil
+	}
 	if out.Hung {
 		return hx.Failf("C07/hang", "%s: search did not end", ctx)
 	}
